@@ -28,6 +28,7 @@ Mutate == /\ ~mutated /\ mutated' = TRUE
           /\ \/ \E i \in 1..Len(s), c \in Repl : s' = [s EXCEPT ![i] = c]
              \/ \E i \in 0..(Len(s) - 1) : s' = SubSeq(s, 1, i)
              \/ \E i \in 1..Len(s) : s' = SubSeq(s, 1, i - 1) \o SubSeq(s, i + 1, Len(s))
+             \/ \E i \in 0..Len(s), ins \in {<<76, 0>>, <<77, 0, 0>>, <<0>>, <<1, 7>>, <<106>>} : s' = SubSeq(s, 1, i) \o ins \o SubSeq(s, i + 1, Len(s))
 Next == Mutate
 Spec == Init /\ [][Next]_vars
 
